@@ -122,7 +122,8 @@ SUB_ARGS = ('count', 'find', 'rfind', 'index', 'rindex', 'endswith')
 SIMPLE_NAMES = NOARG_COPY + NOARG_QUERY + STR_ARG + SUB_ARGS + (
     'clear_formatting', 'simplify', 'center', 'ljust', 'rjust', 'zfill', 'replace', 'replace-ansistring', 'replace-ansistr',
     'split', 'rsplit', 'splitlines', 'expandtabs', 'encode', 'to_str', '__format__', '__iter__', '__add__', '__iadd__', 'join',
-    '__eq__', 'base_str', 'format_matching', 'unformat_matching', 'apply_formatting_for_match', 'add-ansistring', 'add-ansistr')
+    '__eq__', 'base_str', 'format_matching', 'unformat_matching', 'apply_formatting_for_match', 'add-ansistring', 'add-ansistr',
+    'unformat_matching-all', 'unformat_matching-none', 'format_matching-two')
 
 
 def uses(name):
@@ -132,7 +133,7 @@ def uses(name):
     if name in STR_ARG or name in ('__add__', '__iadd__', 'add-ansistring', 'add-ansistr', '__format__', 'apply_formatting_for_match'):
         return 'a'
     if name in SUB_ARGS or name in ('center', 'ljust', 'rjust', 'replace-ansistring', 'replace-ansistr', 'split', 'rsplit', 'to_str',
-                                    'format_matching', 'unformat_matching'):
+                                    'format_matching', 'unformat_matching', 'unformat_matching-all', 'unformat_matching-none', 'format_matching-two'):
         return 'ak'
     if name in ('zfill', 'splitlines', 'expandtabs'):
         return 'k'
@@ -321,6 +322,19 @@ def h_simple(ti: int, si: int, ri: int, m: int, ai: int, bi: int, k: int):
         if not a or bi:
             return None
         bad = both(s, mut(name, a, 'bold', count=kk), call(name, a, 'bold', count=kk))
+    elif name == 'unformat_matching-all':
+        if not a or bi:
+            return None
+        bad = both(s, mut('unformat_matching', a, count=kk), call('unformat_matching', a, count=kk))
+    elif name == 'unformat_matching-none':
+        if not a or bi:
+            return None
+        bad = both(s, mut('unformat_matching', a, 'red', None, count=kk), call('unformat_matching', a, 'red', None, count=kk))
+    elif name == 'format_matching-two':
+        if not a or bi:
+            return None
+        bad = both(s, mut('format_matching', a, 'bold', ['underline'], match_case=True, count=kk),
+                   call('format_matching', a, 'bold', ['underline'], match_case=True, count=kk))
     elif name == 'apply_formatting_for_match':
         if not a or bi or kk:
             return None
@@ -391,6 +405,15 @@ def h_ctor(src: int, ti: int, si: int, ri: int, k: int):
         return ('constructor-changed-source', sk, kk)
     if sk == 2 and (source.base_str, S(source), str.__str__(source)) != snap:
         return ('constructor-changed-ansistr-source', kk)
+    if sk == 1:
+        # the AnsiStr is a value of its own: changing the AnsiString it was built from does not change it
+        ysnap = (y.base_str, S(y), str.__str__(y), y.to_str())
+        s.apply_formatting('italic', 0, 1, topmost=False)
+        s += 'q'
+        s.upper(inplace=True)
+        s.remove_formatting('red')
+        if (y.base_str, S(y), str.__str__(y), y.to_str()) != ysnap or not payload_ok(y):
+            return ('ansistr-follows-its-mutable-source', kk, ysnap, (y.base_str, S(y), str.__str__(y), y.to_str()))
     cover('ctor')
     return True
 
